@@ -22,6 +22,7 @@
 #include <signal.h>
 #include <unistd.h>
 #include <sys/mman.h>
+#include <malloc.h>
 #include <fcntl.h>
 
 #include "tfhe.h"
@@ -209,7 +210,16 @@ inline void crash_handler(int sig, siginfo_t *si, void *) {
     raise(sig);
 }
 
+// Hostile allocator: glibc fills every malloc'ed block with a non-zero pattern and every freed block with another one, so
+// that a result which depends on uninitialised or freed heap memory changes instead of silently reading zero pages of a
+// fresh process (sanitizer and valgrind builds replace the allocator and ignore this).
+inline void hostile_heap() {
+    if (getenv("VH_NO_PERTURB")) return;
+    mallopt(M_PERTURB, 0x5A);
+}
+
 inline void install_crash_handler() {
+    hostile_heap();
     static char altstack[1 << 16];
     stack_t ss; ss.ss_sp = altstack; ss.ss_size = sizeof altstack; ss.ss_flags = 0;
     sigaltstack(&ss, nullptr);
